@@ -11,6 +11,33 @@ import traceback
 import core
 
 
+def implementation_raised(ctx, mod, exc):
+    """An exception escaped the check. If the innermost frame that is neither a third-party library nor this harness lies in the
+    implementation under test, the implementation raised on a use the check makes without error on the unchanged tree: that use is
+    the failing input (reported as a violation with the traceback as replay). Anything else is an internal error (exit 3)."""
+    repo = os.path.realpath(core.REPO) + os.sep
+    here = os.path.realpath(os.path.dirname(os.path.abspath(__file__))) + os.sep
+    frames = traceback.extract_tb(exc.__traceback__)
+    owner = None
+    for fr in reversed(frames):
+        fn = os.path.realpath(fr.filename)
+        if fn.startswith(repo):
+            owner = fr; break
+        if fn.startswith(here):
+            break
+    if owner is None or getattr(mod, "run", None) is None:
+        return None
+    try:
+        ident = f"implementation-raises:{type(exc).__name__}:{os.path.basename(owner.filename)}:{owner.name}"
+        ctx.fail(ident, f"{type(exc).__name__}: {exc}"[:300] + f" (raised in {owner.filename}:{owner.lineno} {owner.name})",
+                 {"traceback": traceback.format_exception(exc)[-12:]})
+        return core.finish(ctx, core.lean_audit(ctx.pid), ["check aborted by an exception raised inside the implementation"],
+                           "aborted run: the use of the implementation that raised", ["the remaining streams of this check did not run"])
+    except Exception:
+        traceback.print_exc()
+        return None
+
+
 def main():
     ap = argparse.ArgumentParser()
     ap.add_argument("pid")
@@ -39,10 +66,12 @@ def main():
     except core.Timeout:
         print(f"[{a.pid}] timed out after {budget}s (no verdict)")
         rc = 2
-    except Exception:
+    except Exception as e:
         traceback.print_exc()
-        print(f"[{a.pid}] internal error in the checking machinery (no verdict)")
-        rc = 3
+        rc = implementation_raised(ctx, mod, e)
+        if rc is None:
+            print(f"[{a.pid}] internal error in the checking machinery (no verdict)")
+            rc = 3
     finally:
         ctx.cleanup()
     sys.exit(rc)
